@@ -39,7 +39,7 @@ RULE = ('one case = one trial: a random constraint assignment (acyclic / cyclic 
         'reply class, irc.callbacks names on both networks, probe commands answered through the real dispatcher.  Non-trivial = at least one tag (all trials have some); distinct = distinct trial description.')
 
 PLUGDIR = os.path.join(os.path.dirname(os.path.abspath(__file__)), 'plugins')
-VT = ['VtOrd%d' % i for i in range(6)]
+VT = ['VtOrd%d' % i for i in range(7)]     # VtOrd6 lives in a directory spelt VTORD6: name on disk != registered name
 BASE = ('Owner', 'Misc', 'User')
 F_RELOAD = 'C20-reload-loses-plugin'
 
@@ -186,7 +186,8 @@ def gen_ops(r, n):
         tgt = r.choice(VT) if r.random() < 0.85 else r.choice(['Owner', 'owner', 'OWNER', 'User', 'Misc', 'Ghost', 'Owner.py'])
         fault = ''
         y = r.random()
-        if y < 0.08: fault = 'import'
+        if y < 0.04: fault = 'die+ctor'
+        elif y < 0.08: fault = 'import'
         elif y < 0.13: fault = 'other'
         elif y < 0.21: fault = 'ctor'
         elif y < 0.27: fault = 'die'
@@ -211,7 +212,8 @@ def enc_flags(fl):
 
 FAULTS = ('import', 'other', 'ctor', 'die')
 def fault_bits(fault, deprecated=False, ignore=False):
-    return ''.join('1' if fault == x else '0' for x in FAULTS) + ('1' if deprecated else '0') + ('1' if ignore else '0')
+    fs = set(fault.split('+'))
+    return ''.join('1' if x in fs else '0' for x in FAULTS) + ('1' if deprecated else '0') + ('1' if ignore else '0')
 
 def real_name(n):
     n = n[:-3] if n.endswith('.py') else n
@@ -297,10 +299,11 @@ def run_trial(b, c, trial):
             nm = 'startup'; rn = None
             tags.update('sfault:' + v for v in sf.values())
         else:
-            c.import_fails = set([rn]) if fault == 'import' and rn else set()
-            c.import_other = set([rn]) if fault == 'other' and rn else set()
-            c.init_raises = set([rn]) if fault == 'ctor' and rn else set()
-            c.die_raises = set([rn]) if fault == 'die' and rn else set()
+            fs = set(fault.split('+'))
+            c.import_fails = set([rn]) if 'import' in fs and rn else set()
+            c.import_other = set([rn]) if 'other' in fs and rn else set()
+            c.init_raises = set([rn]) if 'ctor' in fs and rn else set()
+            c.die_raises = set([rn]) if 'die' in fs and rn else set()
             if op.get('bump') and rn in VT and kind in ('load', 'reload'):
                 # the module "on disk" changes between two (re)loads: other command set, told apart by alt<i>
                 c.version[rn] = c.version.get(rn, 0) + 1
@@ -315,7 +318,7 @@ def run_trial(b, c, trial):
         # probes: every command is sent through the real dispatcher, on both networks
         answered = []
         last = (si == len(trial['ops']) - 1)
-        probe = VT if (last or trial.get('probe_all')) else [v for v in VT if v == rn or v == VT[(si * 5 + len(nm)) % 6]]
+        probe = VT if (last or trial.get('probe_all')) else [v for v in VT if v == rn or v == VT[(si * 5 + len(nm)) % len(VT)]]
         probed_cmds = set()
         for v in probe:
             inst = b.irc.getCallback(v)
@@ -393,7 +396,7 @@ def run_trial(b, c, trial):
             problems.append('step %d: %s %s: %s, %r -> %r' % (si, kind, nm, reply, before_names, after_names))
         if kind == 'reload' and reply != 'success' and sorted(after_names) != sorted(before_names):
             msg = 'step %d: failed reload %s (%s, fault %s) lost a plugin: %r -> %r' % (si, nm, reply, fault or 'cycle', before_names, after_names)
-            if fault == 'ctor' or (fault == '' and reply == 'exception'):
+            if 'ctor' in fault or (fault == '' and reply == 'exception'):
                 findings.add(F_RELOAD); tags.add('finding:reload-loses')
                 problems.append(msg + ' [known class: reload after the old instance was removed]')
             else:
